@@ -12,11 +12,82 @@ T = env.T_BUDGET
 BUDGETS = [dict(total_timeout=t, preprocessing_timeout=p, inference_timeout=i) for t in (0, T) for p in (0, T) for i in (0, T)]
 
 
-def mkq(keys):
+def mkq(keys, queries=None):
     from inference.queries import Queries
 
-    d = dict(QUERIES)
+    d = dict(queries or QUERIES)
     return Queries({k: drive.mkcond(d[k]) for k in keys})
+
+
+# ---------------------------------------------------------------------------------------------------------
+# second family: four-atom bases with several layers, queries SELECTED by the reference model for what the enumeration loops
+# do on them (several incomparable correction sets on one side; a tie in the top layer, so the recursion descends), and a later
+# call that asks ALL queries of the first call again. Selection only - the oracle stays "flagged, or as without budgets".
+d = V("d")
+BASES4 = [
+    [(c, b), (N(c), a), (b, a), (d, b)],              # penguin shape: two layers
+    [(b, a), (c, a), (d, a)],                          # one layer, independent consequents: many incomparable correction sets
+    [(c, b), (N(c), a), (b, a), (c, A(a, d))],         # three layers
+]
+
+
+def _cands4():
+    lits = [V(x) for x in scopes.SIG4] + [N(V(x)) for x in scopes.SIG4]
+    at = lambda l: l[1] if l[0] == "var" else l[1][1]   # noqa: E731
+    out = list(scopes.literal_queries4())
+    for l in lits:
+        for m in lits:
+            for k, j in itertools.combinations(lits, 2):
+                if len({at(l), at(m), at(k), at(j)}) == 4:
+                    out.append((l, A(m, O(k, j))))
+    for l in lits:
+        for m, k, j in itertools.combinations(lits, 3):
+            if len({at(l), at(m), at(k), at(j)}) == 4:
+                out.append((l, A(m, A(k, j))))
+    return out
+
+
+def select_queries(sig, conds, weakly):
+    """Three queries per base: one with >= 2 incomparable minimal falsification sets on one side in the top layer, one whose two
+    sides tie in the top layer (the recursion descends), and the first remaining candidate with a non-vacuous answer."""
+    from .. import ref
+
+    full = forms.allmask(sig)
+    sems = [forms.sem(x, sig) for x in conds]
+    rb = ref.RefBase(sems, full)
+    part = rb.fin
+    top = part[-1]
+    fs = lambda w: frozenset(i for i in top if sems[i][1] >> w & 1)   # noqa: E731
+    multi, deep, plain = [], [], []
+    for q in _cands4():
+        v, f = forms.sem(q, sig)
+        if not v or not f:
+            continue
+        sv = {fs(w) for w in forms.bits(v)}
+        sf = {fs(w) for w in forms.bits(f)}
+        mv = {x for x in sv if not any(y < x for y in sv)}
+        mf = {x for x in sf if not any(y < x for y in sf)}
+        # rank: (several incomparable sets AND a clause-shaped antecedent first), (tie on a NON-empty set first)
+        if len(mv) >= 2 or len(mf) >= 2:
+            # best: the enumeration must be COMPLETE for the right verdict (dropping one verifying set flips the top-layer test)
+            sub = lambda vs: all(any(x <= y for x in vs) for y in mf)   # noqa: E731
+            critical = len(mv) >= 2 and sub(mv) and any(not sub(mv - {x}) for x in mv)
+            multi.append((0 if critical else 1, 0 if q[1][0] == "and" else 1, len(multi), q))
+        if (mv & mf) and len(part) >= 2:
+            deep.append((0 if any(x for x in mv & mf) else 1, len(deep), q))
+        plain.append(q)
+    qs = []
+    for lst in (sorted(deep), sorted(multi)):
+        for *_r, q in lst:
+            if q not in qs:
+                qs.append(q)
+                break
+    for q in plain:
+        if len(qs) >= 3:
+            break
+        if q not in qs:
+            qs.append(q)
+    return [(i + 1, q) for i, q in enumerate(qs)]
 
 
 def rows_of(df):
@@ -29,20 +100,21 @@ def rows_of(df):
     return out
 
 
-def execute(conds, cfg, weakly, budget, multi, chooser):
-    """One execution: a call with three queries and a later call with one, on the same manager, under the environment
-    answers dictated by `chooser`."""
+def execute(conds, cfg, weakly, budget, multi, chooser, sig=None, queries=None, calls=((1, 2, 3), (2,))):
+    """One execution: a call with three queries and a later call (with one of them, or with all of them again), on the same
+    manager, under the environment answers dictated by `chooser`."""
+    sig = sig or scopes.SIG3
     from inference.inference_manager import InferenceManager
 
     system, pm = drive.CONFIGS[cfg]
     e = env.Env(chooser, with_preptime=bool(budget["total_timeout"]))
     obs = []
     with env.installed(e):
-        mgr = InferenceManager(drive.mkbb(scopes.SIG3, conds), system, pmaxsat_solver=pm or "rc2", weakly=weakly)
+        mgr = InferenceManager(drive.mkbb(sig, conds), system, pmaxsat_solver=pm or "rc2", weakly=weakly)
         with sched.patched_mp(sched.Chooser(), extra_choosers=[chooser]):
-            for keys in ((1, 2, 3), (2,)):
+            for keys in calls:
                 try:
-                    df = mgr.inference(mkq(keys), multi_inference=multi, **budget)
+                    df = mgr.inference(mkq(keys, queries), multi_inference=multi, **budget)
                     obs.append(rows_of(df))
                 except BaseException as ex:  # noqa: BLE001
                     if isinstance(ex, (KeyboardInterrupt, SystemExit, MemoryError)):
@@ -80,7 +152,10 @@ class C14(Check):
             "clock read ending the preprocessing measurement -> +T / +2T. Per (base, operator, back-end, mode, budget "
             "configuration in {0,T}^3, sequential / parallel double): the 0-deviation run (counts N observation points, "
             "including those inside forked workers), then EVERY single deviation at every point (thorough: every pair). Each "
-            "execution = a call with 3 queries + a later call with 1 on the same manager. Oracle: no exception escapes; every "
+            "execution = a call with 3 queries + a later call with 1 on the same manager. Second family: three four-atom bases "
+            "(penguin shape, one layer with independent consequents, three layers) with queries selected by the reference model "
+            "(a tie in the top layer so the recursion descends; >= 2 incomparable correction sets on one side; a plain one), the "
+            "later call asks ALL queries again. Oracle: no exception escapes; every "
             "row is flagged (inference_timed_out or preprocessing_timed_out, answer False) or carries the answer of a run "
             "without budgets; own keys. distinct_nontrivial = distinct (case, deviation) executions in which a deviation "
             "actually changed the observation (some row flagged).")
@@ -102,18 +177,31 @@ class C14(Check):
                     if bi == 0:
                         for budget in (BUDGETS[7], BUDGETS[1]):
                             out.append((conds, cfg, weakly, budget, True))
+        # four-atom family (see select_queries): per-query budget only / total budget only, sequential
+        for conds in BASES4:
+            for cfg in STRICT:
+                if cfg in ("p", "z"):
+                    continue   # they never look at the deadline
+                for budget in ((BUDGETS[1], BUDGETS[4]) if quick else (BUDGETS[1], BUDGETS[4], BUDGETS[7])):
+                    out.append((conds, cfg, False, budget, False, "four"))
         return out
 
     def run(self, task):
         res = Result()
-        conds, cfg, weakly, budget, multi = task
-        case0 = {"sig": scopes.SIG3, "conds": [forms.ctxt(x) for x in conds], "conds_f": conds, "config": cfg, "weakly": weakly,
-                 "budget": budget, "multi": multi, "tname": "multi" if multi else "seq"}
-        base_obs, _ = execute(conds, cfg, weakly, dict(total_timeout=0, preprocessing_timeout=0, inference_timeout=0), False, sched.Chooser())
+        conds, cfg, weakly, budget, multi = task[:5]
+        four = len(task) > 5
+        sig = scopes.SIG4 if four else scopes.SIG3
+        queries = select_queries(sig, conds, weakly) if four else QUERIES
+        calls = (tuple(k for k, _ in queries),) * 2 if four else ((1, 2, 3), (2,))
+        kw = dict(sig=sig, queries=queries, calls=calls)
+        case0 = {"sig": sig, "conds": [forms.ctxt(x) for x in conds], "conds_f": conds, "config": cfg, "weakly": weakly,
+                 "budget": budget, "multi": multi, "tname": "multi" if multi else "seq", "queries": [forms.ctxt(q) for _k, q in queries],
+                 "queries_f": [[k, q] for k, q in queries], "calls": [list(x) for x in calls]}
+        base_obs, _ = execute(conds, cfg, weakly, dict(total_timeout=0, preprocessing_timeout=0, inference_timeout=0), False, sched.Chooser(), **kw)
         maxdev = 1 if self.tier == "quick" else 2
         npoints = None
         dig = []
-        for choices, trace, (obs, events) in sched.explore(lambda ch: execute(conds, cfg, weakly, budget, multi, ch), maxdev=maxdev):
+        for choices, trace, (obs, events) in sched.explore(lambda ch: execute(conds, cfg, weakly, budget, multi, ch, **kw), maxdev=maxdev):
             res.evals += 1
             if npoints is None:
                 npoints = len(trace)
@@ -140,7 +228,7 @@ class C14(Check):
         if npoints == 0:
             res.counters["cases_without_observation_points"] += 1
         res.digest = dig
-        res.samples.append({"base": case0["conds"], "config": cfg, "mode": "extended" if weakly else "strict", "budget": budget,
+        res.samples.append({"base": case0["conds"], "queries": case0["queries"], "calls": case0["calls"], "config": cfg, "mode": "extended" if weakly else "strict", "budget": budget,
                             "parallel": multi, "observation_points": npoints, "executions": res.evals,
                             "distinct_observations": len(res.outcomes)})
         return res
@@ -151,9 +239,12 @@ class C14(Check):
     def replay(self, rec):
         cs = rec["case"]
         conds = [opsem.tup(x) for x in cs["conds_f"]]
+        kw = {}
+        if "queries_f" in cs:
+            kw = dict(sig=cs["sig"], queries=[(k, opsem.tup(q)) for k, q in cs["queries_f"]], calls=[tuple(x) for x in cs["calls"]])
         base_obs, _ = execute(conds, cs["config"], cs["weakly"], dict(total_timeout=0, preprocessing_timeout=0, inference_timeout=0),
-                              False, sched.Chooser())
-        obs, events = execute(conds, cs["config"], cs["weakly"], cs["budget"], cs["multi"], sched.Chooser(cs["choices"]))
+                              False, sched.Chooser(), **kw)
+        obs, events = execute(conds, cs["config"], cs["weakly"], cs["budget"], cs["multi"], sched.Chooser(cs["choices"]), **kw)
         probs = judge(obs, base_obs)
         return {"observed": {"calls": obs, "problems": probs}, "violates": bool(probs)}
 
